@@ -47,6 +47,7 @@ type Step struct {
 	Instr   ssa.Instruction
 	Fn      *ssa.Function // function containing Instr
 	Depth   int           // inline depth (0 = root)
+	Chain   string        // root function and the call sites through which the frame of Instr was inlined
 	InDefer bool          // executed while running deferred calls
 
 	// operands; meaning by kind:
@@ -1096,6 +1097,7 @@ func (ex *explorer) emit(st *State, s Step) *Step {
 	f := st.top()
 	s.Fn = f.fn
 	s.Depth = len(st.frames) - 1
+	s.Chain = FuncName(st.frames[0].fn) + f.id
 	for _, fr := range st.frames {
 		if fr.inDefer {
 			s.InDefer = true
